@@ -20,7 +20,7 @@ RULE = (
     "Non-trivial = distinct (pattern, text) with shading non-empty and >=1 classical occurrence rejected by the shading."
 )
 ASSUMPTIONS = ["oracle: vf/oracle/mesh.py + classical.py, independent of permuta"]
-REQUIRED = [
+REQUIRED = ["derived.copies", 
     "calls.MeshPatt.occurrences_in", "calls.BivincularPatt.occurrences_in", "calls.Perm.contains", "calls.Perm.avoids",
     "calls.Perm.avoids_set", "calls.Perm.__contains__", "calls.BivincularPatt.__init__", "biv.adjacency_checked",
     "mixed.checked", "nontrivial.accept_and_reject", "boundary_cell_decisive", "roundtrip.requirements", "derived.objects", "aliasing.requirements_mutated", "random_classmethod.patterns",
@@ -268,7 +268,13 @@ def chk_derived(ctx, m, t):
     _pair(Mp, T, full=False)
     k = len(Mp)
     cells = [(x, y) for x in range(k + 1) for y in range(k + 1)]
+    import copy
+    import pickle
+
     derived = [Mp.rotate(ctx.rng.randint(1, 3)), Mp.inverse(), Mp.complement().reverse(), Mp.shade(ctx.rng.choice(cells))]
+    # copies of the (already used) pattern object: same value, so the same occurrences
+    derived += [pickle.loads(pickle.dumps(Mp)), copy.copy(Mp), copy.deepcopy(Mp)]
+    ctx.count("derived.copies")
     if k:
         derived.append(Mp.sub_mesh_pattern(sorted(ctx.rng.sample(range(k), ctx.rng.randint(0, k)))))
     free = [c for c in cells if c not in Mp.shading]
